@@ -143,32 +143,41 @@ def mutants(case):
 
 
 def content(case):
-    """C01: add the document, observe every non-extension lexicon through the API"""
+    """C01: add the document, observe every non-extension lexicon through the API;
+    an extension is added from a file of its own (after its base) and the base is
+    observed again together with it"""
     import wn._add
     from harness import apiobs
     res = case['res']
     d = base_dir()
-    p = d / 'content.xml'
-    p.write_text(lmfgen.to_xml(res, **case.get('writer', {})), encoding='utf-8')
+    bases = [L for L in res['lexicons'] if not L.get('extends')]
+    exts = [L for L in res['lexicons'] if L.get('extends')]
     fresh_db('c01')
     old = wn._add.BATCH_SIZE
     wn._add.BATCH_SIZE = case.get('batch', old)
     out = []
     try:
-        try:
-            wn.add(p, progress_handler=None)
-            st = 'ok'
-        except JobTimeout:
-            raise
-        except Exception as e:
-            st = 'exc:' + exc_name(e) + ':' + str(e)[:100]
+        def add_part(k, part):
+            p = d / f'content{k}.xml'
+            p.write_text(lmfgen.to_xml({'lmf_version': res['lmf_version'], 'lexicons': part},
+                                       **case.get('writer', {})), encoding='utf-8')
+            try:
+                wn.add(p, progress_handler=None)
+                return 'ok'
+            except JobTimeout:
+                raise
+            except Exception as e:
+                return 'exc:' + exc_name(e) + ':' + str(e)[:100]
         src = docs.flat(res)
+        st = add_part(0, bases) if bases else 'ok'
+        recs = {}
+        # every plain lexicon as the API reports it while only plain lexicons are installed
         for li, L in enumerate(res['lexicons']):
             if L.get('extends'):
                 continue
             spec = f"{L['id']}:{L['version']}"
             r = {'id': f"{case['id']}.{li}", 'li': li, 'spec': spec, 'src': src, 'st': st,
-                 'batch': case.get('batch', old)}
+                 'batch': case.get('batch', old), 'xli': -1}
             if st == 'ok':
                 try:
                     r['api'] = apiobs.observe_api(spec)
@@ -176,7 +185,28 @@ def content(case):
                     raise
                 except Exception as e:
                     r['st'] = 'exc-observe:' + exc_name(e) + ':' + str(e)[:100]
+            recs[(L['id'], L['version'])] = r
             out.append(r)
+        # then each extension (a file of its own): the base seen together with it
+        for xi, X in enumerate(res['lexicons']):
+            ext = X.get('extends')
+            if not ext or st != 'ok':
+                continue
+            r = recs.get((ext['id'], ext['version']))
+            if r is None or r['st'] != 'ok':
+                continue
+            stx = add_part(1 + xi, [X])
+            if stx != 'ok':
+                r['st'] = stx
+                continue
+            try:
+                r['xli'] = xi
+                r['xspec'] = f"{X['id']}:{X['version']}"
+                r['xapi'] = apiobs.observe_api(r['spec'] + ' ' + r['xspec'])
+            except JobTimeout:
+                raise
+            except Exception as e:
+                r['st'] = 'exc-observe:' + exc_name(e) + ':' + str(e)[:100]
     finally:
         wn._add.BATCH_SIZE = old
     return out
